@@ -143,6 +143,7 @@ class BuildStatus:
         self.lake_out = ''
         self.failed_modules: list[str] = []
         self.driver_ok = False
+        self.driver_baseline = None
         self.wall = 0.0
 
     def module_ok(self, mod: str) -> bool:
@@ -184,6 +185,17 @@ def ensure_build(verbose: bool = False) -> BuildStatus:
             st.driver_ok = r2.returncode == 0 and DRIVER_BIN.exists()
         else:
             st.driver_ok = DRIVER_BIN.exists()
+        # keep the last driver that built: if a regenerated definition breaks the driver's
+        # build, the spec oracle (failing-input search) still runs on that baseline driver
+        good = DRIVER_BIN.with_name('ccdriver.good')
+        if st.driver_ok and st.lake_rc == 0:
+            try:
+                if not good.exists() or good.stat().st_mtime < DRIVER_BIN.stat().st_mtime:
+                    import shutil; shutil.copy2(DRIVER_BIN, good)
+            except OSError:
+                pass
+        elif not st.driver_ok and good.exists():
+            st.driver_baseline = good
     finally:
         lk.close()
     st.wall = time.time() - t0
